@@ -17,7 +17,13 @@ ONE fault in ONE job::
     {... 'fault': {'event': 2, 'sub': 0, 'mode': 'reject', 'op': 1,
         'ref': 'development/5.1', 'persist': True}}   # remote refuses a ref
 
-See RULE / ``run`` / ``replay``.
+See RULE / SCOPE / ``run`` / ``replay``.
+
+The code under test is whatever ``bert_e`` package comes first on sys.path
+(/repo by default; ``PYTHONPATH=<snapshot>:/verif:/repo`` measures a frozen
+copy while other processes edit /repo); the report says which one and warns
+when /repo changed during the run.  ``C02_REAL_FORK=1`` keeps the plain
+fork()-per-git-command of simplecmd (slower, see ``_CheapSpawn``).
 """
 import sys
 
@@ -43,6 +49,7 @@ import warnings  # noqa: E402
 warnings.filterwarnings('ignore')
 
 import requests  # noqa: E402
+import subprocess as _subprocess  # noqa: E402
 
 from harness import system as hs  # noqa: E402
 from harness.system import World  # noqa: E402
@@ -51,6 +58,7 @@ from bounded.system_histories import (  # noqa: E402
 from bert_e.git_host import mock as mock_host  # noqa: E402
 from bert_e.lib import git as berte_git  # noqa: E402
 from bert_e.lib import retry as berte_retry  # noqa: E402
+from bert_e.lib import simplecmd as berte_simplecmd  # noqa: E402
 from bert_e.lib.simplecmd import CommandError  # noqa: E402
 
 NAME = 'c02_crash'
@@ -92,10 +100,51 @@ RULE = (
     "('final')."
 )
 
+SCOPE = (
+    "quick: 6 curated histories (no-queue direct merge on a 3 branch "
+    "cascade; queue: add_to_queue then handle_merge_queues; two pull "
+    "requests queued and merged together; stabilization branch with and "
+    "without queue; integration-branch creation step alone (BuildNotStarted)"
+    " then merge), every job, boundaries 1..N, every ref of every multi-ref "
+    "push refused until the end of the job. thorough: 21 curated histories "
+    "(+ second pull request after a merge, skip_queue_when_not_needed "
+    "direct merge with queues.delete(), rebuild_queues / delete_queues / "
+    "force_merge_queues jobs, partial queue merges, new commits on a queued "
+    "pull request, decline, 2 branch cascade) and seeded random histories of "
+    "bounded/system_histories.py (up to 5 events, 115 histories in all; for "
+    "the random ones one run per distinct faulted prefix), boundaries 0..N, "
+    "every ref of every push refused (until the end of the job, and for a "
+    "single attempt), plus the 'every later operation fails but the process "
+    "survives' variant on the first two curated histories. Not covered: a "
+    "death INSIDE a non-atomic multi-ref push other than 'all refs but one', "
+    "a corrupted ~/.bert-e mirror cache, two faults in one history, "
+    "conflicts, hotfix branches, real approvals (always bypassed), hosts "
+    "other than the mock (its pull request state MERGED is computed from "
+    "git: source tip reachable from the destination branch).")
+
 DEV = 'development/'
 D43, D51, D100 = DEV + '4.3', DEV + '5.1', DEV + '10.0'
 STAB = 'stabilization/5.1.0'
 OK, KO = 'SUCCESSFUL', 'FAILED'
+
+
+class _CheapSpawn:
+    """Stands for the ``subprocess`` module inside bert_e.lib.simplecmd:
+    ``preexec_fn=os.setsid`` is passed as the equivalent
+    ``start_new_session=True`` so that CPython may vfork/posix_spawn instead
+    of fork()ing this (large) process for each of the ~300 git commands of
+    an evaluation.  Same child, same session semantics; ``_do_cmd`` itself
+    is the real one."""
+
+    def __getattr__(self, name):
+        return getattr(_subprocess, name)
+
+    @staticmethod
+    def Popen(command, **kwargs):
+        if kwargs.get('preexec_fn') is os.setsid:
+            kwargs.pop('preexec_fn')
+            kwargs['start_new_session'] = True
+        return _subprocess.Popen(command, **kwargs)
 
 
 class Died(BaseException):
@@ -302,6 +351,9 @@ class Hist:
         self.use_queue = wcfg.get('use_queue', True)
         self._saved_sleep = berte_retry.sleep
         berte_retry.sleep = lambda seconds: None
+        self._saved_subprocess = berte_simplecmd.subprocess
+        if os.environ.get('C02_REAL_FORK') != '1':
+            berte_simplecmd.subprocess = _CheapSpawn()
         self.w = World(cascade=tuple(wcfg.get('cascade',
                                               ('4.3', '5.1', '10.0'))),
                        stabilization=wcfg.get('stabilization', False),
@@ -323,6 +375,7 @@ class Hist:
 
     def close(self):
         berte_retry.sleep = self._saved_sleep
+        berte_simplecmd.subprocess = self._saved_subprocess
         self.w.close()
 
     # ---- observations of the remote -------------------------------------
@@ -864,7 +917,7 @@ def histories(tier, seed):
         return out
     seen = {json.dumps(h, sort_keys=True) for h in out}
     i = 0
-    while len(out) < 90 and i < 5000:
+    while len(out) < 115 and i < 5000:
         rng = random.Random('%s:%s:%d' % (NAME, seed, i))
         i += 1
         h = random_history(rng, 5, 'thorough')
@@ -892,13 +945,18 @@ def enumerate_cases(baseline, tier, fail_mode=False):
         if not n:
             continue
         where = {'event': rec['event'], 'sub': rec['sub']}
-        for k in range(0, n + 1):
+        # quick: boundary 0 (nothing happened yet) and the refusal of the
+        # only ref of a push (same remote as dying before that push) are
+        # left to the thorough tier
+        for k in range(1 if tier == 'quick' else 0, n + 1):
             cases.append(dict(history, fault=dict(where, mode='die', k=k)))
             if fail_mode and k < n:
                 cases.append(dict(history,
                                   fault=dict(where, mode='fail', k=k)))
         for idx, op in enumerate(ops):
             if op['kind'] != 'push':
+                continue
+            if tier == 'quick' and len(op.get('refs', ())) < 2:
                 continue
             for ref in op.get('refs', ()):
                 cases.append(dict(history, fault=dict(
@@ -923,6 +981,22 @@ def _cost(case, baseline):
 # ----------------------------------------------------------------------- #
 # entry points
 # ----------------------------------------------------------------------- #
+def _repo_state():
+    """HEAD and uncommitted changes of the code under test (another
+    process editing /repo during a run would change what is measured)."""
+    import subprocess
+
+    def git(*args):
+        return subprocess.run(('git', '-C', '/repo') + args,
+                              stdout=subprocess.PIPE,
+                              stderr=subprocess.DEVNULL,
+                              universal_newlines=True).stdout.strip()
+    import bert_e
+    return {'bert_e_imported_from': os.path.dirname(bert_e.__file__),
+            'head': git('rev-parse', '--short', 'HEAD'),
+            'dirty': git('status', '--short').splitlines()}
+
+
 class _Contained:
     """Every World of this run lives under one mkdtemp root."""
 
@@ -1004,6 +1078,76 @@ def _explore(cases_hist, tier, jobs, deadline, mutate=None):
         pool.terminate()
         pool.join()
     return baselines, results, n_cases, unfinished, notes
+
+
+_PR_ARGS = {'eval': [1], 'race_eval': [1], 'eval_bypass': [1], 'build': [1],
+            'push': [1], 'wait': [1], 'decline': [1], 'after': [1, 2],
+            'queue': [2], 'race_queue': [2]}
+
+
+def _smaller(case):
+    """Cases with one event less (never the faulted one; a 'create' only
+    when no other event refers to its pull request)."""
+    events, fe = case['events'], case['fault']['event']
+    out = []
+    for i in reversed(range(len(events))):
+        if i == fe:
+            continue
+        rest = [list(e) for j, e in enumerate(events) if j != i]
+        if events[i][0] == 'create':
+            k = sum(1 for e in events[:i] if e[0] == 'create')
+            used = False
+            for e in rest:
+                for pos in _PR_ARGS.get(e[0], ()):
+                    if pos < len(e) and isinstance(e[pos], int):
+                        if e[pos] == k:
+                            used = True
+                        elif e[pos] > k:
+                            e[pos] -= 1
+            if used:
+                continue
+        out.append({'world': case['world'], 'events': rest,
+                    'fault': dict(case['fault'],
+                                  event=fe - (1 if i < fe else 0))})
+    return out
+
+
+def _shrink_task(args):
+    case, signature = args
+    res = run_case(case)
+    for v in res['violations']:
+        if v['signature'] == signature:
+            return v
+    return None
+
+
+def _shrink(pool, violations, deadline):
+    """Greedy one-event-at-a-time minimisation of the witness of every
+    signature (all candidates of a round in parallel)."""
+    best = {v['signature']: v for v in violations}
+    active = set(best)
+    while active and time.time() < deadline - 20:
+        handles = []
+        for sig in sorted(active):
+            for cand in _smaller(best[sig]['case']):
+                handles.append((sig, pool.apply_async(
+                    _shrink_task, ((cand, sig),))))
+        progressed = set()
+        for sig, handle in handles:
+            try:
+                v = handle.get(timeout=max(0.05, deadline - time.time()))
+            except multiprocessing.TimeoutError:
+                progressed.add(sig)       # unknown: not proven minimal
+                continue
+            if v is not None and sig not in progressed:
+                progressed.add(sig)
+                best[sig] = dict(v, count=best[sig].get('count', 1))
+        for sig in active - progressed:
+            best[sig]['minimal'] = True
+        active = progressed if time.time() < deadline - 20 else set()
+    return [dict(best[v['signature']],
+                 minimal=best[v['signature']].get('minimal', False))
+            for v in violations]
 
 
 def _report(tier, baselines, results, n_cases, unfinished, notes, t0):
@@ -1091,6 +1235,7 @@ def _report(tier, baselines, results, n_cases, unfinished, notes, t0):
         'name': NAME,
         'tier': tier,
         'rule': RULE,
+        'scope': SCOPE,
         'histories': len(baselines),
         'jobs': sum(len(b['jobs']) for b in baselines),
         'jobs_mutating_remote': sum(1 for b in baselines for j in b['jobs']
@@ -1116,10 +1261,30 @@ def run(tier: str = 'quick', seed: int = 0, jobs: int = 16) -> dict:
     histories of ``tier`` with ``jobs`` worker processes."""
     t0 = time.time()
     budget = 92 if tier == 'quick' else 1440
+    state0 = _repo_state()
     with _Contained():
         baselines, results, n_cases, unfinished, notes = _explore(
-            histories(tier, seed), tier, jobs, t0 + budget)
-    return _report(tier, baselines, results, n_cases, unfinished, notes, t0)
+            histories(tier, seed), tier, jobs, t0 + budget - (
+                0 if tier == 'quick' else 120))
+        rep = _report(tier, baselines, results, n_cases, unfinished, notes,
+                      t0)
+        if rep['violations']:
+            pool = multiprocessing.get_context('fork').Pool(max(1, jobs))
+            try:
+                rep['violations'] = _shrink(pool, rep['violations'],
+                                            t0 + budget)
+            finally:
+                pool.terminate()
+                pool.join()
+    rep['code_under_test'] = {'at_start': state0, 'at_end': _repo_state()}
+    if (state0['bert_e_imported_from'].startswith('/repo/') or
+            state0['bert_e_imported_from'] == '/repo/bert_e') and (
+            state0['dirty'] or rep['code_under_test']['at_end'] != state0):
+        rep['notes'].insert(0, 'WARNING: /repo had uncommitted changes or '
+                            'changed during the run: %s' % json.dumps(
+                                rep['code_under_test']))
+    rep['wall'] = round(time.time() - t0, 1)
+    return rep
 
 
 def replay(case: dict) -> dict:
